@@ -3144,6 +3144,9 @@ def groupby_scan(
     # avoid some roundoff error when we can.
     if by_.shape[-1] == 1 or by_.shape == grp_shape:
         array = array.astype(agg.dtype)
+        if agg.name == "nancumsum" and array.dtype.kind in "fc":
+            # np.nancumsum treats NaN as zero, also when every element is alone in its group
+            array = np.where(isnull(array), 0, array)
         if cast_to is not None:
             array = array.astype(cast_to)
         return array
